@@ -63,6 +63,20 @@ func ruleVerdictConsulted(c *Ctx, rule string, sqlRel string, rels []string, exc
 				}
 			}
 		}
+		// test-support helpers (a *testing.T / testing.TB parameter) assert the verdict through the test
+		// framework, whose aborting calls this walk does not model: they are not engine paths
+		if fn, _ := info.Defs[fd.Name].(*types.Func); fn != nil {
+			ps := fn.Type().(*types.Signature).Params()
+			for i := 0; i < ps.Len(); i++ {
+				t := ps.At(i).Type()
+				if p, ok := t.(*types.Pointer); ok {
+					t = p.Elem()
+				}
+				if n, ok := types.Unalias(t).(*types.Named); ok && n.Obj().Pkg() != nil && n.Obj().Pkg().Path() == "testing" {
+					return
+				}
+			}
+		}
 		for _, d := range findCIRDefs(info, cirT, fd.Body) {
 			if d.valueObj == nil {
 				continue
